@@ -3,7 +3,9 @@
 P_i P_j = delta_ij P_i, sum P_i = 1, M = sum lambda_i P_i, exp(M) = sum e^{lambda_i} P_i (by the
 spectral theorem this IS the exponential once the first three hold), plus a comparison with an
 independent Pade exponential (scipy.linalg.expm).  Random complex matrices
-M = V diag(lambda) V^-1 with cond(V) <= 8, |lambda| <= norm, eigenvalues separated by 0.25 norm.
+M = V diag(lambda) V^-1 with cond(V) <= 8, |lambda| <= norm, eigenvalues separated by 0.25 norm
+(shape generic), and structured ones with the same spectral guarantees: all diagonal entries
+equal, upper triangular, real, one index decoupled.
 """
 
 import numpy as np
@@ -23,6 +25,36 @@ def _call(impl, m):
     return np.array(ex), np.array(w), np.array(e)
 
 
+def _matrix(rng, dim, norm, shape):
+    """matrix and its eigenvalues; diagonalisable, eigenvalues separated by 0.25 norm, eigenbasis cond <= 8."""
+    if shape == "generic":
+        v = c.well_conditioned_basis(rng, dim)
+        lam = c.separated_eigs(rng, dim, norm)
+        return v @ np.diag(lam) @ np.linalg.inv(v), lam
+    for _ in range(20000):
+        m = c.random_matrix(rng, dim, 0.15, 1.0) * norm / dim
+        if shape == "eqdiag":
+            m[np.arange(dim), np.arange(dim)] = m[0, 0]
+        elif shape == "triangular":
+            m = np.triu(m)
+            m[np.arange(dim), np.arange(dim)] = c.separated_eigs(rng, dim, norm)
+        elif shape == "real":
+            m = (m.real * (1 if rng.random() < 0.5 else -1)).astype(complex)
+            if dim == 2 and m[0, 1] * m[1, 0] < 0:   # keep the spectrum separated and well conditioned
+                m[0, 1] = -m[0, 1]
+        elif shape == "decoupled":
+            j = int(rng.integers(0, dim))
+            d = m[j, j]
+            m[j, :] = 0.0
+            m[:, j] = 0.0
+            m[j, j] = d
+        lam, vec = np.linalg.eig(m)
+        sep = min(abs(lam[i] - lam[k]) for i in range(dim) for k in range(i))
+        if sep >= 0.25 * norm and max(abs(lam)) <= 1.5 * norm and np.linalg.cond(vec) <= 8.0:
+            return m, lam
+    raise RuntimeError(f"no {shape} matrix")
+
+
 def measure(cell, seed, npts):
     import scipy.linalg
 
@@ -31,9 +63,7 @@ def measure(cell, seed, npts):
     worst = 0.0
     for k in range(npts):
         rng = c.rng_for(seed, LAW, cell, k)
-        v = c.well_conditioned_basis(rng, dim)
-        lam = c.separated_eigs(rng, dim, norm)
-        m = v @ np.diag(lam) @ np.linalg.inv(v)
+        m, lam = _matrix(rng, dim, norm, cell.get("shape", "generic"))
         ex, w, P = _call(cell["impl"], m)
         nm = np.linalg.norm(m)
         cl = cell["clause"]
